@@ -137,8 +137,10 @@ class KLpq(CallableModel):
         samples = kwargs.get('samples', self.samples)
         self.q.sample(samples)
         log_w = self.p() - self.q()
-        log_w_norm = log_w - torch.logsumexp(log_w, -1)
-        return torch.sum(log_w_norm.exp() * log_w)
+        log_w_norm = log_w - torch.logsumexp(log_w, -1, keepdim=True)
+        # self-normalised estimate along the last sample dimension, averaged
+        # over the leading one (if any)
+        return torch.sum(log_w_norm.exp() * log_w, -1).mean()
 
     def handle_parameter_changed(self, variable, index, event):
         pass
